@@ -3,7 +3,7 @@ From Axv Require Import Base.Bytes Base.Show Model.Values Model.ValuesRun Model.
 Open Scope string_scope.
 
 Inductive top :=
-| TUpd (xid : N) (mods : list (nat * value)) | TDel (xid : N) | TVac (oldest : N)
+| TUpd (xid : N) (mods : list (nat * value)) | TDel (xid : N) | TUndel | TVac (oldest : N)
 | TSnap (s : snap) | TLast | THdr.
 
 Definition show_row (r : list value) : string := join "," (map show_value r).
@@ -25,6 +25,7 @@ Fixpoint run_tops (vk : list kind) (t : tuple) (ops : list top) : option (list s
         | TPanic => None
         end
     | TDel xid => cont (delete t xid) []
+    | TUndel => cont (undelete t) []
     | TVac h => cont (vacuum t h) []
     | TSnap s => cont t [match decode_for t s with Some r => "vis[" ++ show_row r ++ "]" | None => "none" end]
     | TLast => cont t ["last[" ++ show_row (decode_last t) ++ "]"]
